@@ -328,6 +328,10 @@ ppl_set_deterministic_timeout(unsigned long unscaled_weight,
   return PPL_ERROR_LOGIC_ERROR;
 #else // !defined(PPL_THREAD_SAFE)
   // FIXME: this implementation of timeouts is not thread-safe.
+  if (unscaled_weight == 0) {
+    throw std::invalid_argument("ppl_set_deterministic_timeout(u, s): "
+                                "u has to be non-zero.");
+  }
   // In case a deterministic timeout was already set.
   reset_deterministic_timeout();
   static timeout_exception e;
